@@ -29,14 +29,20 @@ fn literal(t: &mut Tape) -> String {
         2 => format!("{}.{}", t.draw(50), t.draw(100)),
         3 => format!("-{}", t.draw(9)),
         4 => "\"\"".into(),
-        5 => format!("\"{}\"", *t.pick(&["abc", "hello world", "ÿé日本", "a,b,,c", " padded ", "x"])),
+        5 => format!("\"{}\"", *t.pick(&[
+            "abc", "hello world", "ÿé日本", "a,b,,c", " padded ", "x", "it`s only rock", "`", "a`b`c`d",
+            "{} %s $X \\n", "semi;colon (paren) [bracket]",
+        ])),
         6 => format!("\"{}\"", *t.pick(&["12", "0x1F", "1e3", "-7.5", " 42", "007", "ff", "10"])),
         7 => (*t.pick(&["true", "right", "yes", "ok"])).into(),
         8 => (*t.pick(&["false", "wrong", "no", "lies"])).into(),
         9 => (*t.pick(&["null", "nothing", "nowhere", "nobody", "gone"])).into(),
         10 => "mysterious".into(),
         11 => (*t.pick(&["empty", "silent", "silence"])).into(),
-        12 => "1000000000000".into(),
+        // (no huge numbers: used as a position or as a repetition count they
+        // make the interpreter allocate that much, and an allocation failure
+        // aborts the process - the harness, when the library runs in it)
+        12 => "65536".into(),
         13 => "0.1".into(),
         14 => "2".into(),
         _ => "10".into(),
@@ -87,7 +93,10 @@ pub fn expr(t: &mut Tape, depth: u32, funcs: usize) -> String {
             let op = *t.pick(&[
                 "plus", "with", "minus", "without", "times", "of", "over", "between",
             ]);
-            let rhs = if t.chance(1, 6) {
+            let rhs = if op == "times" || op == "of" {
+                // text times a number repeats the text: small factors only
+                small_factor(t)
+            } else if t.chance(1, 6) {
                 // an expression list on the right
                 format!("{}, {}", expr(t, depth + 1, funcs), primary(t, 2, funcs))
             } else {
@@ -110,6 +119,10 @@ pub fn expr(t: &mut Tape, depth: u32, funcs: usize) -> String {
         4 => format!("not {}", primary(t, depth + 1, funcs)),
         _ => format!("-{}", t.draw(20)),
     }
+}
+
+fn small_factor(t: &mut Tape) -> String {
+    (*t.pick(&["2", "0", "1", "3", "4", "0.5", "-1", "2, 2", "\"x\"", "true", "nothing", "mysterious"])).into()
 }
 
 fn poetic_words(t: &mut Tape) -> String {
@@ -150,7 +163,8 @@ fn statement(t: &mut Tape, out: &mut String, depth: u32, funcs: usize, scope: us
         1 => out.push_str(&format!("Let {} be {}\n", var(t), expr(t, 0, funcs))),
         2 => {
             let op = *t.pick(&["with", "plus", "minus", "without", "times", "of", "over"]);
-            out.push_str(&format!("Let {} be {} {}\n", var(t), op, expr(t, 1, funcs)))
+            let rhs = if op == "times" || op == "of" { small_factor(t) } else { expr(t, 1, funcs) };
+            out.push_str(&format!("Let {} be {} {}\n", var(t), op, rhs))
         }
         3 => {
             if t.chance(1, 2) {
@@ -285,9 +299,16 @@ pub struct Soup {
 
 pub fn gen_soup(t: &mut Tape) -> Soup {
     let mut out = String::new();
-    // a few starting values of every kind
-    for _ in 0..(2 + t.draw(4)) {
-        out.push_str(&format!("Put {} into {}\n", literal(t), var(t)));
+    // starting values of every kind: mostly for every variable (a program
+    // that reads an unset variable stops there), sometimes only for a few
+    if t.chance(3, 4) {
+        for v in VARS {
+            out.push_str(&format!("Put {} into {}\n", literal(t), v));
+        }
+    } else {
+        for _ in 0..(2 + t.draw(4)) {
+            out.push_str(&format!("Put {} into {}\n", literal(t), var(t)));
+        }
     }
     let nfuncs = t.weighted(&[3, 2, 1, 1]);
     for f in 0..nfuncs {
